@@ -195,6 +195,18 @@ func c09Gen(g *Gen) {
 		for i := range txs {
 			txs[i] = c09GenTx(g, nacc, style)
 		}
+		// a transaction that write-locks an account other transactions use but never touches it
+		// (its Commit must still wait for the previous writer: it relays the dependency)
+		if n >= 3 && g.Intn(4) == 0 {
+			a := g.Intn(nacc)
+			k := 1 + g.Intn(n-2)
+			txs[k-1] = fmt.Sprintf("w%d,r0:r0,r%d,w%d", a, a, a)
+			txs[k] = fmt.Sprintf("w%d:-", a)
+			if g.Intn(2) == 0 {
+				txs[k] = fmt.Sprintf("w%d,r0:r0", a)
+			}
+			txs[k+1] = fmt.Sprintf("w%d,r0:r%d,w%d,r0", a, a, a)
+		}
 		outside := false
 		if g.Intn(60) == 0 {
 			// outside the assumptions (see registry): a world READ lock, or a world write
@@ -597,6 +609,15 @@ func (r *c09Runner) Step(toks []string, o *Oracle) string {
 		}
 		if s.wl[i] == state.AccountWriteLock {
 			o.Count("world-write-tx")
+		}
+		for a, l := range s.locks[i] {
+			touched := false
+			for _, st := range tx.prog {
+				touched = touched || st.acct == a
+			}
+			if l.Lock == state.AccountWriteLock && !touched && s.depIdx[i][a] >= 0 {
+				o.Count("untouched-write-lock-with-dependency")
+			}
 		}
 	}
 
